@@ -1,5 +1,5 @@
 SPECIFICATION Spec
-CONSTANT Family = "C01Clim"
+CONSTANT Family = "C14Two"
 INVARIANT InvSameCases
 INVARIANT InvSameObs
 INVARIANT InvDims
